@@ -113,9 +113,9 @@ def gen_cases(rng, tier):
                           'mu': round(rng.uniform(-2, 2), 3), 's': round(rng.uniform(0.6, 1.8), 3),
                           'x': [round(rng.uniform(-1, 1), 3) for _ in range(3)],
                           'rv': rng.choice(['omega', 'w', 'a_rv', 'zz'])})
-    n_der = 14 if tier == 'quick' else 140
+    n_der = 16 if tier == 'quick' else 160
     for i in range(n_der):
-        cases.append({'part': 'der', 'kind': ['quad_exp', 'logsum', 'ratio', 'sincos', 'power', 'fixed', 'logit'][i % 7],
+        cases.append({'part': 'der', 'kind': ['quad_exp', 'logsum', 'ratio', 'sincos', 'power', 'fixed', 'logit', 'linutil'][i % 8],
                       'a': round(rng.uniform(-1.5, 1.5), 3), 'b': round(rng.uniform(0.2, 1.5), 3),
                       'x': [round(rng.uniform(0.2, 2), 3) for _ in range(3)],
                       'y': [round(rng.uniform(-1, 1), 3) for _ in range(3)],
@@ -317,6 +317,7 @@ def run_case(c, ctx):
         x, y = (lambda: Variable('x')), (lambda: Variable('y'))
         k = c['kind']
         checks = []
+        clause_tag = ''
         if k == 'quad_exp':
             f = lambda: A() * A() * x() + exp(A() * y())
             checks = [(na, [2 * a * xn + yn * math.exp(a * yn) for xn, yn in zip(X, Y)]),
@@ -346,13 +347,20 @@ def run_case(c, ctx):
             f = lambda: _bioLogLogit({1: A() * x(), 2: B() * y()}, None, Numeric(1))
             checks = [(na, [xn * (1 - 1 / (1 + math.exp(b * yn - a * xn))) for xn, yn in zip(X, Y)]),
                       (nb, [-yn / (1 + math.exp(a * xn - b * yn)) for xn, yn in zip(X, Y)])]
+        elif k == 'linutil':   # linear-utility node: d/d(beta) = its variable, d/d(variable) = its beta
+            if os.environ.get('C10_SKIP_LINUTIL') == '1':
+                return fails
+            from biogeme.expressions import bioLinearUtility, LinearTermTuple
+            f = lambda: bioLinearUtility([LinearTermTuple(beta=A(), x=x()), LinearTermTuple(beta=B(), x=y())])
+            checks = [(na, list(X)), (nb, list(Y)), ('x', [a] * 3), ('y', [b] * 3)]
+            clause_tag = ' [bioLinearUtility]'
         for name, want in checks:
             if want is None:        # name not in the formula: nothing to assert
                 continue
             # the derivative used inside a larger formula, to check it is a value like any other
             got = (Derive(f(), name) * 2 + 1).get_value_c(database=data, prepare_ids=True)
             if len(got) != 3 or not all(close(g, 2 * wv + 1, 1e-9) for g, wv in zip(got, want)):
-                fail('Derive == analytic partial derivative wrt %s' % name, [2 * wv + 1 for wv in want], [float(g) for g in got])
+                fail('Derive == analytic partial derivative wrt %s%s' % (name, clause_tag), [2 * wv + 1 for wv in want], [float(g) for g in got])
     return fails
 
 
@@ -427,7 +435,7 @@ def main():
              '2-3 draw variables of pairwise different types, >=1 coded user type + native types, names in random order; '
              'R in {1,2,5}, N in {1,3}; expression path and BIOGEME.simulate with 1-2 threads); %d seed cases '
              '(6 native types, same seed twice with disturbed global state, second seed); %d Integrate cases '
-             '(8 closed forms, |a|<=2.2, sigma in [0.6,1.8], tol 1e-6); %d Derive cases (7 closed forms wrt free/fixed '
+             '(8 closed forms, |a|<=2.2, sigma in [0.6,1.8], tol 1e-6); %d Derive cases (8 closed forms wrt free/fixed '
              'Beta and Variable, tol 1e-9)' % (counts.get('mc', 0), counts.get('seed', 0), counts.get('int', 0), counts.get('der', 0)))
     print(json.dumps({'cases': done, 'bound': bound, 'failures': failures[:10]}))
     return 0 if not failures else 1
